@@ -111,7 +111,7 @@ def run(tier, seed, replay=None):
         "distinct_nontrivial": total,
         "rule": "model: all interleavings of 2 (quick) / 2 and 3 live queries x 3 writes over a 2x2 row universe x one undecodable "
                 "event. real code: %d seeded scenarios, each 1-3 live queries with distinct filters over 0-2 of 7 columns (Go "
-                "representations as in C10), 0-3 initial rows, 1-6 writes, a third of the scenarios with a garbled event and a "
+                "representations as in C10), 2-6 initial rows, 1-6 writes (single-row insert/update/upsert/delete and multi-row UPDATE statements in one rows event), a third of the scenarios with a garbled event and a "
                 "quarter with ALTER TABLE ADD COLUMN; the schedule (which parked query moves, write, deliver, garble, alter) is drawn "
                 "step by step; every scenario ends at quiescence and is non-trivial (at least one run of every query); distinct = "
                 "scenarios" % total,
